@@ -263,10 +263,9 @@ func receivedLen(sim *similarity.BM25Similarity, l int) (norm float64, dl uint32
 //   - an inversion beyond 32 ulp of the weight is a violation whatever the separation;
 //   - when the exact values are separated by more than strictUlp ulp of the weight the computed
 //     scores must be strictly ordered.
-const (
-	tolUlp    = 32
-	strictUlp = 8
-)
+const tolUlp = 32
+
+var strictUlp = float64(vlib.EnvInt("C17_STRICT_ULP", 8)) // the env knob is for calibration runs only (NOTES.md)
 
 func lawPair(law string, sLo, sHi float64, eLo, eHi *big.Float, weight float64, detail string) (strict bool, f *vlib.Failure) {
 	u := ulp(weight)
